@@ -5,6 +5,7 @@ CONSTANTS
  Mode = "tables"
  ULen = 4
  Faults = TRUE
+ WcAsWritten = FALSE
 INVARIANT Conforms
 INVARIANT SearchIsAssign
 INVARIANT SearchComplete
